@@ -492,6 +492,20 @@ func (tree *MutableTree) LoadVersion(targetVersion int64) (int64, error) {
 		return 0, ErrVersionDoesNotExist
 	}
 	rootNodeKey, err := tree.ndb.GetRoot(targetVersion)
+	if errors.Is(err, ErrVersionDoesNotExist) && targetVersion == latestVersion {
+		// The root of a version is written last. A latest version without a root is the
+		// residue of an interrupted commit: discard it and load what was committed before.
+		if err := tree.ndb.DeleteVersionsFrom(latestVersion); err != nil {
+			return 0, err
+		}
+		if err := tree.ndb.Commit(); err != nil {
+			return 0, err
+		}
+		// forget the cached version range: it was derived from the residue
+		tree.ndb.resetFirstVersion(0)
+		tree.ndb.resetLatestVersion(0)
+		return tree.LoadVersion(0)
+	}
 	if err != nil {
 		return 0, err
 	}
